@@ -333,6 +333,104 @@ def _falsy_uses(prog, f: FuncInfo) -> List[str]:
 
 
 # ---------------------------------------------------------------------------------------------
+def row_item_by_name_problems(prog):
+    """(Row.__getitem__, problems of its string-key path): exact stored name first (first occurrence), then the accessor map, else
+    SerifKeyError - shared by C07 (item forms) and C02 (row views agree with column views)."""
+    from ..sites2 import interp_of as _iof
+    from ..symx import flatten_conds, show, subterms
+    rg = prog.func("table.Row.__getitem__")
+    ri_ = _iof(prog, rg)
+    RS_, RK_ = ("param", rg.params[0]), ("param", rg.params[1])
+    rprobs = []
+    is_str_path = lambda conds: any(pol and c[0] == "cmp" and c[1] in ("Is", "Eq") and ("name", "str") in (c[2], c[3])
+                                    and any(x == RK_ for x in subterms(c)) for c, pol in flatten_conds(conds)) or \
+        any(pol and c[0] == "call" and c[1] == ("name", "isinstance") and c[2] == (RK_, ("name", "str")) for c, pol in flatten_conds(conds))
+    str_events = [e for e in ri_.events if is_str_path(e.conds)]
+    # a name is any str, a subclass instance included (an enum.StrEnum member): `type(key) is str` sends it on to the vector indexing,
+    # which knows no names, while t[key], t[rows, key] and t[i, key] = x find the column
+    exact_type = [e for e in str_events if any(pol and c[0] == "cmp" and c[1] in ("Is", "Eq") and ("name", "str") in (c[2], c[3])
+                                               for c, pol in flatten_conds(e.conds))]
+    if exact_type:
+        rprobs.append("the name path is entered only for `type(key) is str`: row[Col.QTY] with an enum.StrEnum member (or any str subclass) is "
+                      "refused although table[Col.QTY] finds the column")
+    if not str_events:
+        rprobs.append("no branch for a string key")
+    for e in str_events:
+        if e.kind == "call" and e.term[1] == ("name", "getattr") and e.term[2][:1] == (RS_,):
+            rprobs.append(f"a string key is resolved by `{show(e.term, ri_)[:40]}`: attributes, methods and private slots of the Row answer for "
+                          f"column names (t[1, 'name'], t[1, 'sum']), and a column whose stored name is not its accessor is not found")
+    srets = [e for e in str_events if e.kind == "return"]
+    names_seq = ("attr", RS_, "_names")
+    exact_first = False
+    for e in srets:
+        for x in subterms(e.term):
+            if x[0] == "first" and x[1] in ri_.loops:
+                lp_ = ri_.loops[x[1]]
+                dom_ = lp_.domain if lp_.domain is not None else lp_.iter
+                doms_ = list(dom_[1]) if dom_ is not None and dom_[0] == "tuple" else [dom_]
+                if names_seq in doms_ or lp_.iter == ("call", ("name", "enumerate"), (names_seq,), ()):
+                    found_ = [flatten_conds(c) for c in lp_.found]
+                    if any(len(fc) == 1 and fc[0][1] and fc[0][0][0] == "cmp" and fc[0][0][1] == "Eq" and RK_ in (fc[0][0][2], fc[0][0][3])
+                           for fc in found_):
+                        exact_first = True
+    # (the same scan written as next((i for i, name in enumerate(names) if name == key), None))
+    for e in srets:
+        for x in subterms(e.term):
+            if x[0] == "call" and x[1] == ("name", "next") and len(x[2]) == 2 and x[2][0][0] == "obj" and x[2][1] == ("const", "NoneType", None):
+                els_ = [ev for ev in ri_.events if ev.kind == "elem" and ev.term == x[2][0] and ev.loops]
+                if len(els_) == 1:
+                    lp_ = ri_.loops[els_[0].loops[-1]]
+                    dom_ = lp_.domain if lp_.domain is not None else lp_.iter
+                    doms_ = list(dom_[1]) if dom_ is not None and dom_[0] == "tuple" else [dom_]
+                    if (names_seq in doms_ or lp_.iter == ("call", ("name", "enumerate"), (names_seq,), ())) and els_[0].value == ("idx", lp_.id):
+                        fc_ = flatten_conds(els_[0].conds[len(lp_.conds):])
+                        if len(fc_) == 1 and fc_[0][1] and fc_[0][0][0] == "cmp" and fc_[0][0][1] == "Eq" and RK_ in (fc_[0][0][2], fc_[0][0][3]):
+                            exact_first = True
+    # (the same first occurrence kept in a dict built once per Row: filled in column order by setdefault / under `not in`)
+    last_wins = None
+    if not exact_first:
+        from ..symx import Interp as _RI, elements as _els
+        init = prog.func("table.Row.__init__")
+        ii = _RI(prog, init)
+        IS_, IT_ = ("param", init.params[0]), ("param", init.params[1])
+        cols_ = ("attr", IT_, "_underlying")
+        for e in srets:
+            for x in subterms(e.term):
+                if x[0] == "call" and x[1][0] == "attr" and x[1][2] == "get" and x[2][:1] == (RK_,) and x[1][1][0] == "attr" \
+                        and x[1][1][1] == RS_ and x[1][1][2] != "_column_map":
+                    st_ = [ev for ev in ii.events if ev.kind == "store" and ev.term == ("attr", IS_, x[1][1][2])]
+                    if len(st_) != 1 or st_[0].value[0] != "obj" or ii.objs[st_[0].value[1]].kind not in ("dict", "dictcomp"):
+                        continue
+                    d_ = st_[0].value
+                    fills = _els(ii, d_)
+                    ok_ = bool(fills) and not ii.objs[d_[1]].init
+                    for ev in fills:
+                        L_ = ev.loops[-1] if ev.loops else None
+                        lp_ = ii.loops.get(L_) if L_ is not None else None
+                        in_order = lp_ is not None and cols_ in (lp_.domain, lp_.iter) and \
+                            lp_.iter in (cols_, ("call", ("name", "enumerate"), (cols_,), ()))
+                        nm_ = ("attr", ("elem", cols_, L_), "_name")
+                        if ev.kind == "call" and ev.term[1][2] == "setdefault" and in_order and ev.term[2] == (nm_, ("idx", L_)):
+                            continue
+                        if ev.kind == "store" and in_order and ev.term == ("sub", d_, nm_) and ev.value == ("idx", L_) and \
+                                any((not pol) and c == ("cmp", "In", nm_, d_) or pol and c == ("cmp", "NotIn", nm_, d_)
+                                    for c, pol in flatten_conds(ev.conds)):
+                            continue
+                        ok_ = False
+                        if ev.kind == "elem" and in_order:
+                            last_wins = x[1][1][2]
+                    if ok_:
+                        exact_first = True
+    if srets and not exact_first and last_wins is not None:
+        rprobs.append(f"the position of a stored name comes out of the dict `{last_wins}`, in which a repeated name keeps its LAST position: "
+                      f"table[name] and t[i, name] = v use the first column of that name")
+    elif srets and not exact_first:
+        rprobs.append("the position is not looked up by the exact stored name (a scan of the row's name snapshot for `name == key`) first")
+    if not any(e.kind == "raise" and e.term[0] == "call" and e.term[1][0] == "name" and "KeyError" in e.term[1][1] for e in str_events):
+        rprobs.append("a column that does not exist is not an error (no SerifKeyError on the string path)")
+    return rg, rprobs
+
+
 def _mask(ctx) -> None:
     """Vector.__getitem__ with a mask / an index list, decided on the return events of the symx log: every `self.copy(...)` result
     is classified by what its data are (slice / mask / gather of self's own elements)."""
@@ -512,58 +610,7 @@ def _mask(ctx) -> None:
     # row['name'] (and so t[i, 'name']) names a COLUMN of the table: the cell comes out of the row's column snapshot at a position found
     # by the exact stored name first, then the accessor map - never through getattr on the Row (methods, properties and private slots
     # of the Row would answer, and the lower-cased accessor map alone would send 'A' to column 'a'); a missing column raises
-    rg = prog.func("table.Row.__getitem__")
-    ri_ = _iof(prog, rg)
-    RS_, RK_ = ("param", rg.params[0]), ("param", rg.params[1])
-    rprobs = []
-    is_str_path = lambda conds: any(pol and c[0] == "cmp" and c[1] in ("Is", "Eq") and ("name", "str") in (c[2], c[3])
-                                    and any(x == RK_ for x in subterms(c)) for c, pol in flatten_conds(conds)) or \
-        any(pol and c[0] == "call" and c[1] == ("name", "isinstance") and c[2] == (RK_, ("name", "str")) for c, pol in flatten_conds(conds))
-    str_events = [e for e in ri_.events if is_str_path(e.conds)]
-    # a name is any str, a subclass instance included (an enum.StrEnum member): `type(key) is str` sends it on to the vector indexing,
-    # which knows no names, while t[key], t[rows, key] and t[i, key] = x find the column
-    exact_type = [e for e in str_events if any(pol and c[0] == "cmp" and c[1] in ("Is", "Eq") and ("name", "str") in (c[2], c[3])
-                                               for c, pol in flatten_conds(e.conds))]
-    if exact_type:
-        rprobs.append("the name path is entered only for `type(key) is str`: row[Col.QTY] with an enum.StrEnum member (or any str subclass) is "
-                      "refused although table[Col.QTY] finds the column")
-    if not str_events:
-        rprobs.append("no branch for a string key")
-    for e in str_events:
-        if e.kind == "call" and e.term[1] == ("name", "getattr") and e.term[2][:1] == (RS_,):
-            rprobs.append(f"a string key is resolved by `{show(e.term, ri_)[:40]}`: attributes, methods and private slots of the Row answer for "
-                          f"column names (t[1, 'name'], t[1, 'sum']), and a column whose stored name is not its accessor is not found")
-    srets = [e for e in str_events if e.kind == "return"]
-    names_seq = ("attr", RS_, "_names")
-    exact_first = False
-    for e in srets:
-        for x in subterms(e.term):
-            if x[0] == "first" and x[1] in ri_.loops:
-                lp_ = ri_.loops[x[1]]
-                dom_ = lp_.domain if lp_.domain is not None else lp_.iter
-                doms_ = list(dom_[1]) if dom_ is not None and dom_[0] == "tuple" else [dom_]
-                if names_seq in doms_ or lp_.iter == ("call", ("name", "enumerate"), (names_seq,), ()):
-                    found_ = [flatten_conds(c) for c in lp_.found]
-                    if any(len(fc) == 1 and fc[0][1] and fc[0][0][0] == "cmp" and fc[0][0][1] == "Eq" and RK_ in (fc[0][0][2], fc[0][0][3])
-                           for fc in found_):
-                        exact_first = True
-    # (the same scan written as next((i for i, name in enumerate(names) if name == key), None))
-    for e in srets:
-        for x in subterms(e.term):
-            if x[0] == "call" and x[1] == ("name", "next") and len(x[2]) == 2 and x[2][0][0] == "obj" and x[2][1] == ("const", "NoneType", None):
-                els_ = [ev for ev in ri_.events if ev.kind == "elem" and ev.term == x[2][0] and ev.loops]
-                if len(els_) == 1:
-                    lp_ = ri_.loops[els_[0].loops[-1]]
-                    dom_ = lp_.domain if lp_.domain is not None else lp_.iter
-                    doms_ = list(dom_[1]) if dom_ is not None and dom_[0] == "tuple" else [dom_]
-                    if (names_seq in doms_ or lp_.iter == ("call", ("name", "enumerate"), (names_seq,), ())) and els_[0].value == ("idx", lp_.id):
-                        fc_ = flatten_conds(els_[0].conds[len(lp_.conds):])
-                        if len(fc_) == 1 and fc_[0][1] and fc_[0][0][0] == "cmp" and fc_[0][0][1] == "Eq" and RK_ in (fc_[0][0][2], fc_[0][0][3]):
-                            exact_first = True
-    if srets and not exact_first:
-        rprobs.append("the position is not looked up by the exact stored name (a scan of the row's name snapshot for `name == key`) first")
-    if not any(e.kind == "raise" and e.term[0] == "call" and e.term[1][0] == "name" and "KeyError" in e.term[1][1] for e in str_events):
-        rprobs.append("a column that does not exist is not an error (no SerifKeyError on the string path)")
+    rg, rprobs = row_item_by_name_problems(prog)
     ctx.ob("d.dispatch-exhaustive", rg, "row-item-by-name", not rprobs, "row[name]: exact stored name, then accessor map, else SerifKeyError",
            rg.node, message="Row.__getitem__: " + "; ".join(rprobs[:2]))
     # one name and a tuple of names are resolved by the same forms (exact stored name; accessor name; <accessor>__<position>;
